@@ -3,13 +3,14 @@ from tools import vlib
 from tools.harness import gen, corr, pcommon, build, observe
 
 PROP = "C07"
-GEN = ["gen_exc"]
+GEN = ["gen_exc", "gen_memo"]
 RULE = ("seeded random grammars with '-' (error stop) at random positions of sequences nested in every container, fatal conditions "
         "and fatal-raising actions; inputs sampled from the grammar and mutated; (i) extracted model vs implementation (exception "
         "class, location, message, tokens); (ii) implementation-only oracle on grammars built from transparent containers only: every "
         "construction of a ParseFatalException/ParseSyntaxException during parse_string is recorded from outside, and if one was "
         "constructed the call must raise a fatal exception at the location of the first one; non-trivial = a fatal exception was "
-        "constructed during the parse")
+        "constructed during the parse; the oracle and the model comparison are repeated with packrat on and, for a left-recursive rule "
+        "E <<= (E + '+' - N) | N placed inside the same containers, with enable_left_recursion(None / 1)")
 TRUSTED = pcommon.TRUSTED_PARSE + [
     "the oracle's recorder wraps ParseFatalException.__init__ from the harness (no change to /repo)"]
 
@@ -46,6 +47,8 @@ def rand_transparent(rng, depth):
 
 ENV_T0 = None
 ENV_T = {0: ("mf", ("andstop", 1, ("lit", "("), ("fwd", 0), ("lit", ")")), ("word", "ab"))}
+ENV_LR = {0: ("mf", ("andstop", 2, ("fwd", 0), ("lit", ","), ("word", "ab")), ("word", "ab"))}     # E <<= (E + ',' - W) | W
+LR_INPUTS = ["a,b", "a,b,a", "a,b,,", "a,,b", "ab , ba , ,", "a,b,a,(", "a b,", "a,"]
 
 
 class Recorder:
@@ -75,7 +78,7 @@ class _Timeout(BaseException):
     pass
 
 
-def oracle_case(g, env, inp):
+def oracle_case(g, env, inp, mode=("none",)):
     """returns (n_fatal_constructed, failure-or-None); a parse that spins (nullable repetition body) is skipped"""
     import signal
 
@@ -84,7 +87,7 @@ def oracle_case(g, env, inp):
     old = signal.signal(signal.SIGALRM, on_alarm)
     signal.setitimer(signal.ITIMER_REAL, 0.75)
     try:
-        return _oracle_case(g, env, inp)
+        return _oracle_case(g, env, inp, mode)
     except _Timeout:
         return 0, None
     finally:
@@ -92,11 +95,18 @@ def oracle_case(g, env, inp):
         signal.signal(signal.SIGALRM, old)
 
 
-def _oracle_case(g, env, inp):
+def _oracle_case(g, env, inp, mode=("none",)):
     import pyparsing as pp
     b = build.Builder(env)
     root = b.build_all(g)
-    pp.ParserElement.disable_memoization()
+    observe.set_mode(mode)
+    try:
+        return _oracle_run(pp, root, inp)
+    finally:
+        pp.ParserElement.disable_memoization()
+
+
+def _oracle_run(pp, root, inp):
     with Recorder() as rec:
         try:
             root.parse_string(inp)
@@ -148,8 +158,18 @@ def correspond(ctx):
     cases.append((("mf", ("andstop", 1, gen.A, gen.B), gen.A), {}, "ac"))
     cases.append((("star", ("andstop", 1, gen.A, gen.B)), {}, "ab ab ac"))
     cases.append((("opt", ("group", ("andstop", 1, gen.A, gen.B))), {}, "ac"))
+    # the same containers around a left-recursive rule with an error stop, bounded-recursion mode
+    lr_groups, lr_cases = [], []
+    for i in range(40 if not ctx.thorough else 400):
+        g = ("fwd", 0) if i == 0 else rand_transparent(rng, rng.randint(2, 4))
+        if "('fwd', 0)" not in repr(g):
+            continue
+        inputs = sorted({rng.choice(LR_INPUTS) for _ in range(3)} | {gen.mutate_input(rng, rng.choice(LR_INPUTS), "ab,( ") for _ in range(2)})
+        lr_groups.append((g, ENV_LR, inputs, [("lr", None), ("lr", 1)], [("parse", False)]))
+        lr_cases.extend((g, ENV_LR, s2) for s2 in inputs)
     stats = {}
     recs = corr.run_groups(groups, stats=stats)
+    recs += corr.run_groups(lr_groups, stats=stats, skip_spins=False)
     ctx.coverage_extra["class_histogram"] = stats.get("classes", {})
     pcommon.outcome_hist(ctx, recs)
     pcommon.model_agreement(ctx, recs, "fatal-outcomes")
@@ -168,6 +188,29 @@ def correspond(ctx):
         if bad:
             ctx.violation("swallowed:%r|%r" % (g, inp), "%r on %r: %s" % (g, inp, bad),
                           {"kind": "oracle", "grammar": g, "env": env, "input": inp})
+    for (g, env, inp) in cases[::7]:
+        try:
+            k, bad = oracle_case(g, env, inp, ("packrat", 128))
+        except build.Unbuildable:
+            continue
+        ctx.case("oracle-packrat:%r|%r" % (g, inp), nontrivial=k > 0, agreed=True)
+        if bad:
+            ctx.violation("swallowed-packrat:%r|%r" % (g, inp), "%r on %r with packrat: %s" % (g, inp, bad),
+                          {"kind": "oracle", "grammar": g, "env": env, "input": inp, "mode": ["packrat", 128]})
+    nlr = 0
+    for (g, env, inp) in lr_cases:
+        for mode in (("lr", None), ("lr", 1)):
+            try:
+                k, bad = oracle_case(g, env, inp, mode)
+            except build.Unbuildable:
+                continue
+            ctx.case("oracle-lr:%r|%r|%r" % (g, inp, mode), nontrivial=k > 0, agreed=True)
+            nlr += k > 0
+            if bad:
+                ctx.violation("swallowed-lr:%r|%r" % (g, inp), "%r (env %r) on %r with enable_left_recursion(%r): %s" % (g, env, inp, mode[1], bad),
+                              {"kind": "oracle", "grammar": g, "env": env, "input": inp, "mode": list(mode)})
+                break
+    ctx.stat("oracle_lr_cases_with_fatal", nlr)
     ctx.stat("oracle_cases", len(cases))
     ctx.stat("oracle_cases_with_fatal", nfatal)
     ctx.sample({"grammar": ("mf", ("andstop", 1, gen.A, gen.B), gen.A), "input": "ac", "impl": oracle_case(("mf", ("andstop", 1, gen.A, gen.B), gen.A), {}, "ac")})
@@ -202,7 +245,7 @@ def replay(ctx, obj):
     r = obj["replay"]
     if r.get("kind") == "oracle":
         g, env = _tuplify(r["grammar"]), {int(k): _tuplify(v) for k, v in (r.get("env") or {}).items()}
-        k, bad = oracle_case(g, env, r["input"])
+        k, bad = oracle_case(g, env, r["input"], _tuplify(r.get("mode") or ["none"]))
         print("fatal exceptions constructed: %d; %s" % (k, bad or "propagated correctly"))
         return bad is None
     print("replay names a broken proof/correspondence obligation: %r" % (r,))
